@@ -437,6 +437,7 @@ theorem inv_step (sch : Sch) (m : Mode) (s : Res × Ctx) (x : Step) (h : Inv sch
   | wild a pc n => exact inv_wild m a pc n h
   | nsRead n => exact inv_unstale h
   | fields d t => exact h
+  | localValue k v => exact h
   | memoCall k =>
     simp only [step]
     split
@@ -476,6 +477,7 @@ theorem step_mono (sch : Sch) (m : Mode) (s : Res × Ctx) (x : Step) (hw : isWil
   | wild a pc n => simp [isWild] at hw
   | nsRead n => exact ⟨fun _ h => h, fun _ h => h, fun _ h => h⟩
   | fields d t => exact ⟨fun _ h => h, fun _ h => h, fun _ h => h⟩
+  | localValue k v => exact ⟨fun _ h => h, fun _ h => h, fun _ h => h⟩
   | memoCall k =>
     simp only [step]
     split <;> exact ⟨fun _ h => h, fun _ h => h, fun _ h => h⟩
@@ -546,6 +548,7 @@ theorem stale_step_plain (sch : Sch) (m : Mode) (r : Res) (ctx : Ctx) (x : Step)
   | enter ids => rfl
   | collect d => rfl
   | fields d t => rfl
+  | localValue k v => rfl
   | leave ids => rfl
   | setCtx c => rfl
   | scratchUse dirt => rfl
@@ -609,6 +612,7 @@ theorem step_rel (sch : Sch) (r1 r2 : Res) (ctx : Ctx) (x : Step) (hrel : Rel sc
     | wild a pc n => simp [stepPlain] at hc
     | nsRead n => simp [stepPlain] at hc
     | fields d t => simp only [step, typing_eq hrel.i1, typing_eq hrel.i2]
+    | localValue k v => rfl
   · cases x with
     | xsiType d t b =>
       cases b with
@@ -638,6 +642,7 @@ theorem step_rel (sch : Sch) (r1 r2 : Res) (ctx : Ctx) (x : Step) (hrel : Rel sc
     | enter ids => exact hrel.sub
     | collect d => exact hrel.sub
     | fields d t => exact hrel.sub
+    | localValue k v => exact hrel.sub
     | leave ids => exact hrel.sub
     | setCtx c => exact hrel.sub
     | scratchUse dirt => exact hrel.sub
@@ -701,6 +706,7 @@ theorem dependent_gen (sch : Sch) : ∀ (doc : List Step) (r2 : Res) (ctx : Ctx)
       | wild a pc n => simp [stepOK] at hok
       | nsRead n => simp [stepOK] at hok
       | fields d t => simp [stepOK] at hok
+      | localValue k v => simp [stepOK] at hok
       | enter ids => simp [stepOK] at hok
       | xsiType d t b => simp [stepOK] at hok
       | leave ids => simp [stepOK] at hok
@@ -789,6 +795,7 @@ theorem ungated_step (sch : Sch) (r1 r2 : Res) (ctx : Ctx) (x : Step) (h1 : Inv 
   | enter ids => rfl
   | xsiType d t b => simp only [step]; split <;> split <;> rfl
   | fields d t => simp only [step, typing_eq h1, typing_eq h2]
+  | localValue k v => rfl
   | leave ids => rfl
   | setCtx c => rfl
   | scratchUse dirt => rfl
@@ -831,6 +838,7 @@ theorem loaded_mono_step (sch : Sch) (m : Mode) (s : Res × Ctx) (x : Step) {n :
   | enter ids => exact h
   | collect d => exact h
   | fields d t => exact h
+  | localValue k v => exact h
   | leave ids => exact h
   | setCtx c => exact h
   | scratchUse dirt => exact h
@@ -850,6 +858,7 @@ theorem loaded_nil_step (sch : Sch) (r : Res) (ctx : Ctx) (x : Step) (hi : Inv s
   | enter ids => exact h
   | collect d => exact h
   | fields d t => exact h
+  | localValue k v => exact h
   | leave ids => exact h
   | setCtx c => exact h
   | scratchUse dirt => exact h
@@ -905,6 +914,7 @@ theorem ns_dependent_gen (sch : Sch) : ∀ (doc : List Step) (r2 : Res) (ctx : C
         simp [run, step, l1, l2] at heq
       | enter ids => simp [stepQuiet] at hx
       | fields d t => simp [stepQuiet] at hx
+      | localValue k v => simp [stepQuiet] at hx
       | xsiType d t b => simp [stepQuiet] at hx
       | collect d => simp [stepQuiet] at hx
       | leave ids => simp [stepQuiet] at hx
